@@ -5,6 +5,7 @@ CONSTANTS
   Q = 1
   MaxInstr = 6
   MaxFail = 0
+  GatedFinish = FALSE
   Eager = TRUE
   RecoverUsesStatePin = TRUE
   StatusAllListsDirect = TRUE
